@@ -67,7 +67,10 @@ impl IndRef for FisherTransform {
 		let lo = Q::new(self.win.lowest(), rad);
 		// exact predicate of the inputs: every candle of the window is the same candle
 		let same_candle = self.candles.iter().all(|x| x == c);
-		let ft = if hi.v == lo.v && (rad == 0.0 || same_candle) {
+		// hl2 = (high + low)/2 is a single rounded sum (halving is exact): equality of such values is decided
+		// exactly as well, whereas tp and volumed_price depend on how the three-term mean is evaluated
+		let exact_source = rad == 0.0 || self.src == "hl2";
+		let ft = if hi.v == lo.v && (exact_source || same_candle) {
 			// † follows the implementation: on a zero range (x = 0/0) the transform counts as 0
 			Q::exact(0.0)
 		} else if (hi - lo).straddles(0.0) {
@@ -82,9 +85,6 @@ impl IndRef for FisherTransform {
 		// † follows the implementation: the prior value enters with the weight 1/2 (Ehlers' recursion;
 		// the linked pages only say "added to the prior calculated value")
 		self.cum = self.cum.scale(0.5) + ft;
-		if !self.cum.is_defined() && ft.r.is_infinite() && !ft.is_defined() {
-			eprintln!("DBG undefined: src={} hi={:?} lo={:?} s={:?} n={} candles={:?}", self.src, hi, lo, s, self.n, self.candles);
-		}
 		if !self.cum.is_defined() {
 			// the recursion carries an undecidable step forever; the average is not fed with it
 			return vec![Q::undefined(), Q::undefined()];
